@@ -101,18 +101,7 @@ def strategy(tier):
 
 def steer(case):
     case['steered'] = []
-    if case.pop('avoid_known') and case['inc_rex']:
-        for c in case['frame']['cols']:
-            if c['kind'] != 'ostr':
-                continue
-            cells = []
-            for v in c['cells']:
-                if v is not None and c03.has_nonascii_decimal(v):
-                    v = ''.join(c03.ASCII_FOR.get(ch, ch) for ch in v)
-                    if c03.F_NONASCII_DECIMAL not in case['steered']:
-                        case['steered'].append(c03.F_NONASCII_DECIMAL)
-                cells.append(v)
-            c['cells'] = cells
+    case.pop('avoid_known')
     return case
 
 
@@ -239,14 +228,6 @@ def run(case, ctx):
         if bad or v.failures:
             for (f, k) in bad or [('?', '?')]:
                 col = next((c for c in desc['cols'] if c['name'] == f), None)
-                if (k == 'rex' and col is not None and any(
-                        x is not None and c03.has_nonascii_decimal(x)
-                        for x in col['cells'])):
-                    out.known_hit(c03.F_NONASCII_DECIMAL,
-                                  '%s: rex %r fails on %r'
-                                  % (tag, fields.get(f, {}).get('rex'),
-                                     col['cells'][:10]))
-                    continue
                 out.violate('closure', '%s:%s' % (col['kind'] if col else '?',
                                                   k),
                             '%s: %s on field %r (%s) fails on the table it '
